@@ -3,10 +3,17 @@
     (1) never two transports open at once,
     (2) every connection's packet log begins with exactly one CONNECT,
     (3) the logged back-off exponents are the numbers of consecutive failures since the last
-        accepted CONNACK (so, with C09a, the real waits are `Backoff.run base max attempts`),
-    (4) after Disconnect, in every phase: no new dial and no new connection (the Connect in progress
-        may finish); only Disconnect BEFORE Connect (`.idle`) still allows the one dial the Go loop
-        makes before it first looks at `disconnected`.
+        accepted CONNACK (so, with C09a, the real waits are `Backoff.run base max attempts`), and
+        every redial happens only after its wait was logged and the back-off timer fired
+        (`.waitElapsed`): `dials` = (1 once Connect was called) + number of effective `.waitElapsed`,
+    (4) after Disconnect, in every phase but `.idle` (connected, waiting to redial, dialling, waiting
+        for CONNACK, exited): no new dial; no new connection except the one of a dial that was in
+        flight; the loop exits at once from `.up` / `.backoff` and as soon as the dial / CONNECT in
+        flight is resolved otherwise. Only Disconnect BEFORE Connect (`.idle`) still allows the one
+        dial the Go loop makes before it first looks at `disconnected`,
+    (5) cancellation of the context given to Connect before the first success ends the loop at once
+        (Connect returns the error, no dial or connection ever again); after the first success it
+        does nothing.
   Helper lemmas: `MqttVerif/Proofs/RetryLoop.lean`.
 -/
 import MqttVerif.Proofs.RetryLoop
@@ -18,10 +25,10 @@ open Mqtt.Retry Mqtt.Backoff
 /-! ### (1) one live transport -/
 
 /-- (1) one live transport: all connections except possibly the last one are dead, and the last one
-    is dead whenever the loop is at the dial gate -/
+    is dead too whenever the loop is at the dial gate or waiting to redial -/
 theorem one_transport (s : Script) : let w := exec s
     (∀ k, k + 1 < w.conns.length → (getConn w k).alive = false) ∧
-    (w.phase = .dialGate → ∀ k, k < w.conns.length → (getConn w k).alive = false) :=
+    (w.phase = .dialGate ∨ w.phase = .backoff → ∀ k, k < w.conns.length → (getConn w k).alive = false) :=
   ⟨(TInv.exec s).1, (TInv.exec s).2.1⟩
 
 /-- the loop always watches the LAST connection; before `Connect` there is none -/
@@ -36,7 +43,7 @@ theorem dial_only_when_all_closed (s : Script) (i : Nat) : let w := exec s
       ∀ k, k < w.conns.length → (getConn w k).alive = false := by
   intro w hlen
   by_cases hp : w.phase = .dialGate
-  · exact (one_transport s).2 hp
+  · exact (one_transport s).2 (Or.inl hp)
   · have : step w (.dialOk i) = w := by simp [step, hp]
     rw [this] at hlen
     omega
@@ -140,12 +147,16 @@ theorem step_waits (w : World) (ev : Ev) : let w' := step w ev
     (w'.waits = w.waits ++ [0] ∧ w'.waitExp = 1) :=
   shape_waits (step_shape w ev)
 
-/-- the loop dials again, after a wait, as soon as the connection it watches has ended -/
+/-- when the connection it watches has ended the loop logs the wait and sleeps (no dial yet); it dials
+    again when — and only when — the back-off timer fires -/
 theorem redials_after_loss (w : World) (k : Nat) (h : w.phase = .up k) (hd : (getConn w k).alive = false)
     (hs : w.stopped = false) :
-    (loopReact w).phase = .dialGate ∧ (loopReact w).dials = w.dials + 1 ∧
-      (loopReact w).waits = w.waits ++ [w.waitExp] := by
-  simp [loopReact, h, hd, hs]
+    (loopReact w).phase = .backoff ∧ (loopReact w).dials = w.dials ∧
+      (loopReact w).waits = w.waits ++ [w.waitExp] ∧
+      (step (loopReact w) .waitElapsed).phase = .dialGate ∧
+      (step (loopReact w) .waitElapsed).dials = w.dials + 1 ∧
+      (step (loopReact w) .waitElapsed).waits = w.waits ++ [w.waitExp] := by
+  simp [loopReact, step, h, hd, hs]
 
 /-- over whole runs: the loop is never found resting in `.up k` on a connection that has ended — by
     then it has already reacted (`redials_after_loss`, or exited if Disconnect was called) -/
@@ -153,27 +164,219 @@ theorem up_means_alive (s : Script) (k : Nat) (h : (exec s).phase = .up k) :
     (getConn (exec s) k).alive = true :=
   UInv.exec s k h
 
+/-! ### (3') every dial is preceded by its wait -/
+
+/-- one step makes at most one dial; the only dialling steps are `.start` (Connect called, from `.idle`)
+    and `.waitElapsed` (the back-off timer fires, from `.backoff`). In particular no failure event
+    (`.dialFail`, refused / absent CONNACK, `.peerClose`, a failed request) dials by itself. -/
+theorem dial_only_at_start_or_waitElapsed (w : World) (ev : Ev) :
+    (step w ev).dials = w.dials ∨
+    ((step w ev).dials = w.dials + 1 ∧
+      ((ev = .start ∧ w.phase = .idle) ∨ (ev = .waitElapsed ∧ w.phase = .backoff))) :=
+  shape_dials (step_shape w ev)
+
+/-- `.waitElapsed` outside `.backoff` does nothing -/
+theorem waitElapsed_only_in_backoff (w : World) (h : w.phase ≠ .backoff) : step w .waitElapsed = w := by
+  simp [step, h]
+
+/-- the loop sleeps only after a wait was logged: phase by phase, the number of DialContext calls
+    against the number of logged waits, in every reachable world. The first dial needs no wait; every
+    redial consumed exactly one logged wait; in `.backoff` the last logged wait is still running. -/
+theorem dials_vs_waits (s : Script) : let w := exec s
+    (w.phase = .idle → w.dials = 0 ∧ w.waits = []) ∧
+    (w.phase = .backoff → w.dials = w.waits.length ∧ 1 ≤ w.dials) ∧
+    ((w.phase = .dialGate ∨ ∃ k, w.phase = .connackGate k ∨ w.phase = .up k) → w.dials = w.waits.length + 1) ∧
+    (w.phase = .exited → w.waits.length ≤ w.dials ∧ w.dials ≤ w.waits.length + 1 ∧ 1 ≤ w.dials) := by
+  have h : DRel (exec s).phase (exec s).dials (exec s).waits.length := DInv.exec s
+  dsimp only
+  generalize exec s = w at h ⊢
+  refine ⟨fun hp => ?_, fun hp => ?_, fun hp => ?_, fun hp => ?_⟩
+  · rw [hp] at h; exact ⟨h.1, List.eq_nil_of_length_eq_zero h.2⟩
+  · rw [hp] at h; exact h
+  · rcases hp with hp | ⟨k, hp | hp⟩ <;> rw [hp] at h <;> exact h
+  · rw [hp] at h; exact h
+
+/-- … hence always `dials ≤ waits.length + 1`, and `waits.length ≤ dials` once Connect was called;
+    `dials = waits.length` exactly while a logged wait is pending (or was abandoned on exit) -/
+theorem dials_le_waits_succ (s : Script) : let w := exec s
+    w.dials ≤ w.waits.length + 1 ∧ (w.phase ≠ .idle → w.waits.length ≤ w.dials) := by
+  have h : DRel (exec s).phase (exec s).dials (exec s).waits.length := DInv.exec s
+  dsimp only
+  generalize exec s = w at h ⊢
+  cases hp : w.phase <;> rw [hp] at h <;> simp [DRel] at h ⊢ <;> omega
+
+/-- the k-th redial: the timer can only fire on a logged wait. In `.backoff` the wait log is
+    `ws ++ [e]` with `dials = ws.length + 1`: exactly one wait per dial so far, the last one (`e`, the
+    exponent in force when the failure was observed) still running; `.waitElapsed` then makes dial
+    number `ws.length + 2` and leaves the log as it is. -/
+theorem redial_consumes_last_wait (s : Script) : let w := exec s
+    w.phase = .backoff → ∃ ws e, w.waits = ws ++ [e] ∧ w.dials = ws.length + 1 ∧
+      (step w .waitElapsed).phase = .dialGate ∧ (step w .waitElapsed).dials = ws.length + 2 ∧
+      (step w .waitElapsed).waits = ws ++ [e] := by
+  have hv := (dials_vs_waits s).2.1
+  dsimp only at hv ⊢
+  generalize exec s = w at hv ⊢
+  intro hp
+  obtain ⟨h1, h2⟩ := hv hp
+  have hne : w.waits ≠ [] := by
+    intro h0
+    have : w.waits.length = 0 := by rw [h0]; rfl
+    omega
+  have hl : w.waits.dropLast.length + 1 = w.waits.length := by
+    rw [List.length_dropLast]
+    have : w.waits.length ≠ 0 := fun h0 => hne (List.eq_nil_of_length_eq_zero h0)
+    omega
+  refine ⟨w.waits.dropLast, w.waits.getLast hne, (List.dropLast_concat_getLast hne).symm, by omega, ?_, ?_, ?_⟩
+  · simp [step, hp]
+  · simp [step, hp]; omega
+  · rw [List.dropLast_concat_getLast hne]; simp [step, hp]
+
+def isStart : Ev → Bool
+  | .start => true
+  | _ => false
+
+def isWaitElapsed : Ev → Bool
+  | .waitElapsed => true
+  | _ => false
+
+/-- the `.start` events of a script that found the loop in `.idle` (at most one, `starts_le_one`) -/
+def starts (w : World) : List Ev → Nat
+  | [] => 0
+  | e :: es => (if isStart e = true ∧ w.phase = .idle then 1 else 0) + starts (step w e) es
+
+/-- the `.waitElapsed` events of a script that found the loop in `.backoff`: the timer firings -/
+def redials (w : World) : List Ev → Nat
+  | [] => 0
+  | e :: es => (if isWaitElapsed e = true ∧ w.phase = .backoff then 1 else 0) + redials (step w e) es
+
+theorem step_dials_count (w : World) (e : Ev) :
+    (step w e).dials = w.dials + (if isStart e = true ∧ w.phase = .idle then 1 else 0) +
+      (if isWaitElapsed e = true ∧ w.phase = .backoff then 1 else 0) := by
+  have hsh := dial_only_at_start_or_waitElapsed w e
+  cases e with
+  | start =>
+    by_cases hp : w.phase = .idle
+    · have : (step w .start).dials = w.dials + 1 := by
+        simp only [step, hp]
+        split
+        · rename_i h; exact absurd rfl h
+        · split <;> rfl
+      rw [this]; simp [isStart, isWaitElapsed, hp]
+    · have : step w .start = w := by simp [step, hp]
+      rw [this]; simp [isStart, isWaitElapsed, hp]
+  | waitElapsed =>
+    by_cases hp : w.phase = .backoff
+    · simp [step, isStart, isWaitElapsed, hp]
+    · simp [step, isStart, isWaitElapsed, hp]
+  | _ =>
+    simp only [isStart, isWaitElapsed]
+    rcases hsh with h | ⟨_, ⟨h, _⟩ | ⟨h, _⟩⟩
+    · simp [h]
+    · cases h
+    · cases h
+
+/-- `dials` counts exactly the effective `.start` and the timer firings -/
+theorem dials_count (evs : List Ev) (w : World) :
+    (evs.foldl step w).dials = w.dials + starts w evs + redials w evs := by
+  induction evs generalizing w with
+  | nil => simp [starts, redials]
+  | cons e es ih =>
+    simp only [List.foldl_cons, starts, redials]
+    rw [ih, step_dials_count]
+    omega
+
+theorem foldl_not_idle (evs : List Ev) (w : World) (h : w.phase ≠ .idle) : (evs.foldl step w).phase ≠ .idle := by
+  induction evs generalizing w with
+  | nil => exact h
+  | cons e es ih => exact ih _ (shape_not_idle h (step_shape w e))
+
+theorem starts_of_not_idle (evs : List Ev) (w : World) (h : w.phase ≠ .idle) : starts w evs = 0 := by
+  induction evs generalizing w with
+  | nil => rfl
+  | cons e es ih =>
+    simp only [starts]
+    rw [ih _ (shape_not_idle h (step_shape w e))]
+    simp [h]
+
+/-- Connect starts the loop once: the effective `.start` events are 1 if the run left `.idle`, else 0 -/
+theorem starts_eq (evs : List Ev) (w : World) (h : w.phase = .idle) :
+    starts w evs = if (evs.foldl step w).phase = .idle then 0 else 1 := by
+  induction evs generalizing w with
+  | nil => simp [starts, h]
+  | cons e es ih =>
+    show (if isStart e = true ∧ w.phase = .idle then 1 else 0) + starts (step w e) es =
+      if (es.foldl step (step w e)).phase = .idle then 0 else 1
+    cases hs : isStart e
+    · have hne : e ≠ .start := by intro h0; rw [h0] at hs; cases hs
+      have hi := (idle_shape h hne (step_shape w e)).1
+      rw [ih _ hi]; simp
+    · have he : e = .start := by cases e <;> first | rfl | cases hs
+      subst he
+      have hni : (step w .start).phase ≠ .idle := by
+        simp only [step, h]
+        split
+        · rename_i h0; exact absurd rfl h0
+        · split <;> simp
+      rw [starts_of_not_idle es _ hni, if_neg (foldl_not_idle es _ hni)]
+      simp [h]
+
+theorem starts_le_one (s : Script) : starts (init s) s.evs ≤ 1 := by
+  rw [starts_eq s.evs (init s) rfl]; split <;> omega
+
+/-- over whole runs: DialContext was called once when Connect was called and once per timer firing -/
+theorem dials_are_start_plus_redials (s : Script) :
+    (exec s).dials = (if (exec s).phase = .idle then 0 else 1) + redials (init s) s.evs := by
+  have h := dials_count s.evs (init s)
+  rw [starts_eq s.evs (init s) rfl] at h
+  have h0 : (init s).dials = 0 := rfl
+  rw [h0] at h
+  show (s.evs.foldl step (init s)).dials =
+    (if (s.evs.foldl step (init s)).phase = .idle then 0 else 1) + redials (init s) s.evs
+  rw [h]; omega
+
+/-- every timer firing was preceded by its logged wait: the number of redials never exceeds the number
+    of logged waits; they are equal while dialling / connecting / connected and differ by the one
+    running wait in `.backoff` -/
+theorem redials_le_waits (s : Script) : let w := exec s
+    redials (init s) s.evs ≤ w.waits.length ∧
+    (w.phase = .backoff → redials (init s) s.evs + 1 = w.waits.length) ∧
+    ((w.phase = .dialGate ∨ ∃ k, w.phase = .connackGate k ∨ w.phase = .up k) →
+      redials (init s) s.evs = w.waits.length) := by
+  have hd : (exec s).dials = (if (exec s).phase = .idle then 0 else 1) + redials (init s) s.evs :=
+    dials_are_start_plus_redials s
+  have h : DRel (exec s).phase (exec s).dials (exec s).waits.length := DInv.exec s
+  dsimp only
+  generalize exec s = w at h hd ⊢
+  generalize redials (init s) s.evs = r at hd ⊢
+  refine ⟨?_, fun hp => ?_, fun hp => ?_⟩
+  · cases hp : w.phase <;> rw [hp] at h hd <;> simp [DRel] at h hd ⊢ <;> omega
+  · rw [hp] at h hd; simp [DRel] at h hd; omega
+  · rcases hp with hp | ⟨k, hp | hp⟩ <;> rw [hp] at h hd <;> simp [DRel] at h hd <;> omega
+
 /-! ### (4) Disconnect -/
 
-/-- Disconnect on a running client: `stopped` is set and the loop exits from `.up` / `.dialGate` -/
+/-- Disconnect on a running client: `stopped` is set and the loop exits at once from `.up` (connected)
+    and from `.backoff` (waiting to redial: the select on the timer also listens on `disconnected`) -/
 theorem disconnect_stops (s : Script) : let w := exec s
     w.stopped = false → (step w .disconnect).stopped = true ∧
-      (w.phase = .up k ∨ w.phase = .dialGate → (step w .disconnect).phase = .exited) := by
+      ((w.phase = .backoff ∨ ∃ k, w.phase = .up k) → (step w .disconnect).phase = .exited) := by
   intro w hs
   obtain ⟨h1, h2, _, _⟩ := disconnect_spec w hs
   refine ⟨h1, ?_⟩
-  rintro (h | h) <;> rw [h2, h] <;> rfl
+  rintro (h | ⟨k, h⟩) <;> rw [h2, h] <;> rfl
 
 /-- Disconnect in every phase (any world): it creates no connection and starts no dial; the loop
-    exits from `.up` / `.dialGate`, and stays where it is in `.idle` / `.connackGate` / `.exited` -/
+    exits from `.up` / `.backoff`, and stays where it is in `.idle` / `.dialGate` / `.connackGate` /
+    `.exited` (a DialContext or a CONNECT in flight is not interrupted: see `disconnect_in_flight_exits`) -/
 theorem disconnect_every_phase (w : World) (hs : w.stopped = false) : let w' := step w .disconnect
     w'.stopped = true ∧ w'.dials = w.dials ∧ w'.conns.length = w.conns.length ∧
-    ((w.phase = .dialGate ∨ ∃ k, w.phase = .up k) → w'.phase = .exited) ∧
-    ((w.phase = .idle ∨ w.phase = .exited ∨ ∃ k, w.phase = .connackGate k) → w'.phase = w.phase) := by
+    ((w.phase = .backoff ∨ ∃ k, w.phase = .up k) → w'.phase = .exited) ∧
+    ((w.phase = .idle ∨ w.phase = .dialGate ∨ w.phase = .exited ∨ ∃ k, w.phase = .connackGate k) →
+      w'.phase = w.phase) := by
   obtain ⟨h1, h2, h3, h4⟩ := disconnect_spec w hs
   refine ⟨h1, h3, h4, ?_, ?_⟩
   · rintro (h | ⟨k, h⟩) <;> rw [h2, h] <;> rfl
-  · rintro (h | h | ⟨k, h⟩) <;> rw [h2, h] <;> rfl
+  · rintro (h | h | h | ⟨k, h⟩) <;> rw [h2, h] <;> rfl
 
 /-- a second Disconnect does nothing -/
 theorem disconnect_idempotent (w : World) (hs : w.stopped = true) : step w .disconnect = w := by
@@ -185,9 +388,16 @@ theorem no_dial_after_exit (w : World) (evs' : List Ev) (h : w.phase = .exited) 
       (evs'.foldl step w).conns.length = w.conns.length :=
   exited_foldl evs' w h
 
-/-- The general statement, for ANY stopped world and ANY later events: `stopped` stays, and the loop
-    makes at most `dialBudget phase` more dials and at most `connBudget phase` more connections, where
-      dialBudget = 1 in `.idle`, 0 otherwise;  connBudget = 1 in `.idle` / `.dialGate`, 0 otherwise. -/
+/-- a stopped loop is never found waiting to redial: Disconnect releases the back-off select, and every
+    failure observed after Disconnect ends the loop instead of starting a wait -/
+theorem stopped_not_backoff (s : Script) : (exec s).stopped = true → (exec s).phase ≠ .backoff :=
+  SInv.exec s
+
+/-- The general statement, for ANY stopped world (reachable or not) and ANY later events: `stopped`
+    stays, and the loop makes at most `dialBudget phase` more dials and at most `connBudget phase` more
+    connections, where
+      dialBudget = 1 in `.idle` and in `.backoff` (unreachable when stopped: `stopped_not_backoff`), 0 otherwise;
+      connBudget = 1 in `.idle` / `.backoff` / `.dialGate`, 0 otherwise. -/
 theorem stopped_budget (w : World) (evs' : List Ev) (hs : w.stopped = true) : let w' := evs'.foldl step w
     w'.stopped = true ∧
     w.dials ≤ w'.dials ∧ w'.dials ≤ w.dials + dialBudget w.phase ∧
@@ -195,12 +405,11 @@ theorem stopped_budget (w : World) (evs' : List Ev) (hs : w.stopped = true) : le
   obtain ⟨h1, h2, h3, h4, h5⟩ := stopped_foldl evs' w hs
   exact ⟨h1, h2, by omega, h3, by omega⟩
 
-/-- (4) after Disconnect the loop never dials again: in every phase but `.idle`, for all later events
-    (refused / absent / accepted CONNACKs, dial results, peer closes, …), `dials` stays; the number of
-    connections stays too, except that a stopped loop standing at the dial gate (reachable only by
-    Disconnect-before-Connect, see `stopped_budget`) may still get the transport of the dial in flight.
-    This is the original statement with `.idle` removed, `.up` and `.dialGate` added and no
-    restriction on `evs'`. -/
+/-- (4) after Disconnect the loop never dials again: in every reachable stopped world outside `.idle`
+    (`.backoff` cannot occur, `.dialGate` = Disconnect arrived while a DialContext was in flight), for
+    all later events (timer firings, refused / absent / accepted CONNACKs, dial results, peer closes,
+    cancellations, …) `dials` stays; the number of connections stays too, except that the dial in
+    flight may still deliver its transport: at most one more connection, and only from `.dialGate`. -/
 theorem no_dial_after_disconnect (s : Script) (evs' : List Ev) : let w := exec s
     w.stopped = true → w.phase ≠ .idle →
       (evs'.foldl step w).dials = w.dials ∧
@@ -208,18 +417,19 @@ theorem no_dial_after_disconnect (s : Script) (evs' : List Ev) : let w := exec s
       w.conns.length ≤ (evs'.foldl step w).conns.length ∧
       (evs'.foldl step w).conns.length ≤ w.conns.length + 1 := by
   intro w hs hp
+  have hnb : w.phase ≠ .backoff := stopped_not_backoff s hs
   obtain ⟨_, h2, h3, h4, h5⟩ := stopped_budget w evs' hs
   have hd : dialBudget w.phase = 0 := by
-    cases hph : w.phase <;> first | rfl | exact absurd hph hp
+    cases hph : w.phase <;> first | rfl | exact absurd hph hp | exact absurd hph hnb
   have hc : connBudget w.phase ≤ 1 := by cases w.phase <;> simp [connBudget]
   refine ⟨by omega, ?_, h4, by omega⟩
   intro hng
   have hc0 : connBudget w.phase = 0 := by
-    cases hph : w.phase <;> first | rfl | exact absurd hph hp | exact absurd hph hng
+    cases hph : w.phase <;> first | rfl | exact absurd hph hp | exact absurd hph hng | exact absurd hph hnb
   omega
 
-/-- the same in the phases named in the task (`.exited`, `.connackGate k`) and `.up k`: plain equality,
-    no hypothesis on the later events -/
+/-- the same in `.exited`, `.connackGate k` and `.up k`, for any world: plain equality, no hypothesis on
+    the later events -/
 theorem no_dial_while_stopped (w : World) (evs' : List Ev) (hs : w.stopped = true)
     (hp : w.phase = .exited ∨ ∃ k, w.phase = .connackGate k ∨ w.phase = .up k) : let w' := evs'.foldl step w
     w'.stopped = true ∧ w'.dials = w.dials ∧ w'.conns.length = w.conns.length := by
@@ -228,25 +438,123 @@ theorem no_dial_while_stopped (w : World) (evs' : List Ev) (hs : w.stopped = tru
     rcases hp with h | ⟨k, h | h⟩ <;> rw [h] <;> exact ⟨rfl, rfl⟩
   exact ⟨h1, by omega, by omega⟩
 
-/-- Disconnect on a running client in ANY phase other than `.idle` (connected, dialling, waiting for
-    CONNACK, already exited), then ANY events: never another dial, never another connection.
-    Holds for every world, reachable or not. -/
+/-- Disconnect on a running client in ANY phase other than `.idle` (connected, waiting to redial,
+    dialling, waiting for CONNACK, already exited), then ANY events: never another dial. The number of
+    connections grows by at most one, and only when Disconnect arrived while a DialContext was in
+    flight (`.dialGate`), whose transport may still be delivered. Holds for every world, reachable or not. -/
 theorem disconnect_then_no_dial (w : World) (evs' : List Ev) (hs : w.stopped = false) (hp : w.phase ≠ .idle) :
     (evs'.foldl step (step w .disconnect)).dials = w.dials ∧
-    (evs'.foldl step (step w .disconnect)).conns.length = w.conns.length := by
+    w.conns.length ≤ (evs'.foldl step (step w .disconnect)).conns.length ∧
+    (evs'.foldl step (step w .disconnect)).conns.length ≤ w.conns.length + 1 ∧
+    (w.phase ≠ .dialGate → (evs'.foldl step (step w .disconnect)).conns.length = w.conns.length) := by
   obtain ⟨h1, h2, h3, h4⟩ := disconnect_spec w hs
   obtain ⟨_, b2, b3, b4, b5⟩ := stopped_budget (step w .disconnect) evs' h1
-  have hb : dialBudget (step w .disconnect).phase = 0 ∧ connBudget (step w .disconnect).phase = 0 := by
+  have hb : dialBudget (step w .disconnect).phase = 0 ∧ connBudget (step w .disconnect).phase ≤ 1 ∧
+      (w.phase ≠ .dialGate → connBudget (step w .disconnect).phase = 0) := by
     rw [h2]
-    cases hph : w.phase <;> first | exact ⟨rfl, rfl⟩ | exact absurd hph hp
+    cases hph : w.phase <;>
+      first
+      | exact absurd hph hp
+      | exact ⟨rfl, by simp [discPhase, connBudget], fun _ => rfl⟩
+      | exact ⟨rfl, by simp [discPhase, connBudget], fun h => absurd rfl h⟩
+  refine ⟨by omega, by omega, by omega, fun hng => ?_⟩
+  have := hb.2.2 hng
   omega
 
 /-- … in particular along any run -/
 theorem disconnect_then_no_dial_exec (s : Script) (evs' : List Ev) : let w := exec s
     w.stopped = false → w.phase ≠ .idle →
       (evs'.foldl step (step w .disconnect)).dials = w.dials ∧
-      (evs'.foldl step (step w .disconnect)).conns.length = w.conns.length :=
+      w.conns.length ≤ (evs'.foldl step (step w .disconnect)).conns.length ∧
+      (evs'.foldl step (step w .disconnect)).conns.length ≤ w.conns.length + 1 ∧
+      (w.phase ≠ .dialGate → (evs'.foldl step (step w .disconnect)).conns.length = w.conns.length) :=
   fun hs hp => disconnect_then_no_dial _ evs' hs hp
+
+/-! #### the loop exits as soon as the attempt in flight is resolved -/
+
+/-- a stopped loop inside DialContext: a dial error ends it at once -/
+theorem stopped_dialFail_exits (w : World) (hs : w.stopped = true) (hp : w.phase = .dialGate) :
+    (step w .dialFail).phase = .exited := by
+  simp [step, hp, hs]
+
+/-- … a transport is handed over (SetClient, CONNECT written): the loop, still stopped, awaits the CONNACK -/
+theorem stopped_dialOk_connects (w : World) (hs : w.stopped = true) (hp : w.phase = .dialGate) (i : Nat) :
+    (step w (.dialOk i)).phase = .connackGate w.conns.length ∧ (step w (.dialOk i)).stopped = true ∧
+      (step w (.dialOk i)).dials = w.dials ∧ (step w (.dialOk i)).conns.length = w.conns.length + 1 := by
+  simp [step, hp, hs]
+
+/-- a stopped loop awaiting the CONNACK: any resolution of the CONNECT attempt ends it -/
+theorem stopped_connack_exits (w : World) (k : Nat) (hs : w.stopped = true) (hp : w.phase = .connackGate k) :
+    (∀ sp inb, (step w (.connackOk sp inb)).phase = .exited) ∧
+    (step w .connackRefused).phase = .exited ∧
+    (w.cfg.connectTimeout = true → (step w .connackNever).phase = .exited) :=
+  ⟨fun sp inb => connackOk_stopped w k sp inb hp hs, connackRefused_stopped w k hp hs,
+   fun ht => connackNever_stopped w k hp hs ht⟩
+
+/-- the whole path: from a stopped world in `.dialGate`, `.dialFail` exits at once, and `.dialOk`
+    followed by any of accepted / refused / (with a connect timeout) absent CONNACK exits -/
+theorem stopped_dialGate_resolves (w : World) (hs : w.stopped = true) (hp : w.phase = .dialGate) :
+    (step w .dialFail).phase = .exited ∧
+    ∀ i, (∀ sp inb, (step (step w (.dialOk i)) (.connackOk sp inb)).phase = .exited) ∧
+      (step (step w (.dialOk i)) .connackRefused).phase = .exited ∧
+      (w.cfg.connectTimeout = true → (step (step w (.dialOk i)) .connackNever).phase = .exited) := by
+  refine ⟨stopped_dialFail_exits w hs hp, fun i => ?_⟩
+  obtain ⟨h1, h2, _, _⟩ := stopped_dialOk_connects w hs hp i
+  obtain ⟨a, b, c⟩ := stopped_connack_exits _ _ h2 h1
+  refine ⟨a, b, fun ht => c ?_⟩
+  have : (step w (.dialOk i)).cfg = w.cfg := by simp [step, hp]
+  rw [this]; exact ht
+
+/-- Disconnect while a DialContext or a CONNECT is in flight: the loop stays where it is, stopped, and
+    the statements above apply to `step w .disconnect` -/
+theorem disconnect_in_flight_exits (w : World) (hs : w.stopped = false) :
+    (w.phase = .dialGate → let w1 := step w .disconnect
+      w1.stopped = true ∧ w1.phase = .dialGate ∧ (step w1 .dialFail).phase = .exited ∧
+      ∀ i, (∀ sp inb, (step (step w1 (.dialOk i)) (.connackOk sp inb)).phase = .exited) ∧
+        (step (step w1 (.dialOk i)) .connackRefused).phase = .exited ∧
+        (w.cfg.connectTimeout = true → (step (step w1 (.dialOk i)) .connackNever).phase = .exited)) ∧
+    (∀ k, w.phase = .connackGate k → let w1 := step w .disconnect
+      w1.stopped = true ∧ w1.phase = .connackGate k ∧
+      (∀ sp inb, (step w1 (.connackOk sp inb)).phase = .exited) ∧
+      (step w1 .connackRefused).phase = .exited ∧
+      (w.cfg.connectTimeout = true → (step w1 .connackNever).phase = .exited)) := by
+  obtain ⟨h1, h2, _, _⟩ := disconnect_spec w hs
+  have hcfg : (step w .disconnect).cfg = w.cfg := step_disconnect_cfg w
+  refine ⟨fun hp => ?_, fun k hp => ?_⟩
+  · have hp1 : (step w .disconnect).phase = .dialGate := by rw [h2, hp]; rfl
+    obtain ⟨a, b⟩ := stopped_dialGate_resolves _ h1 hp1
+    refine ⟨h1, hp1, a, fun i => ?_⟩
+    obtain ⟨b1, b2, b3⟩ := b i
+    exact ⟨b1, b2, fun ht => b3 (by rw [hcfg]; exact ht)⟩
+  · have hp1 : (step w .disconnect).phase = .connackGate k := by rw [h2, hp]; rfl
+    obtain ⟨a, b, c⟩ := stopped_connack_exits _ k h1 hp1
+    exact ⟨h1, hp1, a, b, fun ht => c (by rw [hcfg]; exact ht)⟩
+
+/-- and whatever else happens in between (requests, timer firings, peer closes, `.start`, a second
+    Disconnect, …), a stopped loop with a dial or a CONNECT in flight never goes back to waiting or
+    dialling: it stays in flight or has exited -/
+theorem stopped_in_flight_stays (w : World) (evs' : List Ev) (hs : w.stopped = true)
+    (hp : w.phase = .dialGate ∨ ∃ k, w.phase = .connackGate k) : let w' := evs'.foldl step w
+    w'.phase = .dialGate ∨ (∃ k, w'.phase = .connackGate k) ∨ w'.phase = .exited := by
+  induction evs' generalizing w with
+  | nil => rcases hp with h | h; exact Or.inl h; exact Or.inr (Or.inl h)
+  | cons e es ih =>
+    have hs1 : (step w e).stopped = true := (stopped_shape hs (step_shape w e)).1
+    obtain ⟨g1, g2⟩ := stopped_gate_shape hs (step_shape w e)
+    have hnext : (step w e).phase = .dialGate ∨ (∃ k, (step w e).phase = .connackGate k) ∨
+        (step w e).phase = .exited := by
+      rcases hp with h | ⟨k, h⟩
+      · rcases g1 h with a | a | ⟨_, a⟩
+        · exact Or.inl a
+        · exact Or.inr (Or.inr a)
+        · exact Or.inr (Or.inl ⟨_, a⟩)
+      · rcases g2 k h with a | a
+        · exact Or.inr (Or.inl ⟨k, a⟩)
+        · exact Or.inr (Or.inr a)
+    rcases hnext with a | a | a
+    · exact ih _ hs1 (Or.inl a)
+    · exact ih _ hs1 (Or.inr a)
+    · exact Or.inr (Or.inr (exited_foldl es _ a).1)
 
 /-- Disconnect before `Connect` (phase `.idle`): nothing happens until the application calls Connect … -/
 theorem no_dial_while_idle (w : World) (evs' : List Ev) (h : w.phase = .idle) (hev : ∀ e ∈ evs', e ≠ .start) :
@@ -267,22 +575,122 @@ theorem disconnect_before_connect (w : World) (evs' : List Ev) (hs : w.stopped =
     rw [h2, hp]; exact ⟨rfl, rfl⟩
   omega
 
+/-! ### (5) cancellation of the context given to Connect -/
+
+/-- `.cancelCtx` after the first success (Connect has returned: the loop runs on `context.Background()`)
+    changes nothing -/
+theorem cancel_after_success (w : World) (h : w.connectReturned.isSome = true) : step w .cancelCtx = w :=
+  step_cancel_noop w (Or.inr h)
+
+/-- a context can be cancelled only once -/
+theorem cancel_twice (w : World) (h : w.ctxCancelled = true) : step w .cancelCtx = w :=
+  step_cancel_noop w (Or.inl h)
+
+/-- An EFFECTIVE cancellation (Connect has not returned, the context was live) while the loop is running
+    and not connected — waiting to redial, dialling, awaiting the CONNACK — or has already ended on
+    Disconnect: the loop is `.exited` immediately, Connect returns the context's error, nothing is
+    dialled or created; the connection whose CONNACK was awaited is closed. Any world. -/
+theorem cancel_exits (w : World) (hcr : w.connectReturned = none) (hcc : w.ctxCancelled = false)
+    (hp : w.phase = .backoff ∨ w.phase = .dialGate ∨ (∃ k, w.phase = .connackGate k) ∨ w.phase = .exited) :
+    let w' := step w .cancelCtx
+    w'.phase = .exited ∧ w'.connectErr = true ∧ w'.ctxCancelled = true ∧ w'.connectReturned = none ∧
+    w'.dials = w.dials ∧ w'.conns.length = w.conns.length ∧ w'.waits = w.waits ∧ w'.stopped = w.stopped ∧
+    (∀ k, w.phase = .connackGate k → k < w.conns.length → (getConn w' k).alive = false) := by
+  obtain ⟨c1, c2, _, c4, _, c6, c7, c8⟩ := cancel_spec w hcc hcr
+  obtain ⟨x1, x2, x3⟩ := ctxSt_eq' c8
+  have hph : cancelPhase w.phase = .exited ∧ cancelErr w.phase w.connectErr = true := by
+    rcases hp with h | h | ⟨k, h⟩ | h <;> rw [h] <;> exact ⟨rfl, rfl⟩
+  refine ⟨c2.trans hph.1, x3.trans hph.2, x2, x1, c6, c1.1, c4, c7, fun k hk hlt => ?_⟩
+  show (getConn (step w .cancelCtx) k).alive = false
+  rw [step_cancel_gate w k hcc hcr hk]
+  exact cancelGate_dead w k hlt
+
+/-- Connect returns once, and an error only from a loop that has ended without ever connecting: in
+    every reachable world `connectErr` implies `.exited`, a cancelled context and no success; a loop that
+    watches a connection has returned success — so an effective cancellation never meets `.up` -/
+theorem connect_returns_once (s : Script) : let w := exec s
+    (w.connectErr = true → w.phase = .exited ∧ w.connectReturned = none ∧ w.ctxCancelled = true) ∧
+    (∀ k, w.phase = .up k → w.connectReturned.isSome = true) ∧
+    (w.phase = .idle → w.connectReturned = none ∧ w.connectErr = false) :=
+  ⟨(XInv.exec s).2.1, (XInv.exec s).2.2, (XInv.exec s).1⟩
+
+/-- in particular cancellation while connected does nothing (reachable worlds) -/
+theorem cancel_while_connected (s : Script) (k : Nat) (h : (exec s).phase = .up k) :
+    step (exec s) .cancelCtx = exec s :=
+  cancel_after_success _ ((connect_returns_once s).2.1 k h)
+
+/-- what Connect returned is never revoked: for any world and any later events an error stays, a
+    cancelled context stays cancelled, a returned session-present flag stays -/
+theorem connect_outcome_is_final (w : World) (evs' : List Ev) : let w' := evs'.foldl step w
+    (w.connectErr = true → w'.connectErr = true) ∧ (w.ctxCancelled = true → w'.ctxCancelled = true) ∧
+    (w.connectReturned.isSome = true → w'.connectReturned = w.connectReturned) :=
+  ctxMono_foldl evs' w
+
+theorem exec_append (s : Script) (l : List Ev) : exec { s with evs := s.evs ++ l } = l.foldl step (exec s) := by
+  show (s.evs ++ l).foldl step (init s) = _
+  rw [List.foldl_append]; rfl
+
+/-- (5) along any run: an effective cancellation before the first success, in ANY phase after Connect
+    was called (waiting to redial, dialling, awaiting CONNACK, exited; `.up` cannot occur), ends the loop
+    at once with the context's error, and for ANY later events the loop stays `.exited`, `dials` and the
+    number of connections never grow again, Connect's result stays the error and never becomes a success. -/
+theorem cancel_then_nothing (s : Script) (evs' : List Ev) : let w := exec s
+    w.connectReturned = none → w.ctxCancelled = false → w.phase ≠ .idle →
+      (step w .cancelCtx).phase = .exited ∧ (step w .cancelCtx).connectErr = true ∧
+      (step w .cancelCtx).dials = w.dials ∧ (step w .cancelCtx).conns.length = w.conns.length ∧
+      (evs'.foldl step (step w .cancelCtx)).phase = .exited ∧
+      (evs'.foldl step (step w .cancelCtx)).dials = w.dials ∧
+      (evs'.foldl step (step w .cancelCtx)).conns.length = w.conns.length ∧
+      (evs'.foldl step (step w .cancelCtx)).connectErr = true ∧
+      (evs'.foldl step (step w .cancelCtx)).connectReturned = none := by
+  intro w hcr hcc hp
+  have hph : w.phase = .backoff ∨ w.phase = .dialGate ∨ (∃ k, w.phase = .connackGate k) ∨ w.phase = .exited := by
+    cases hq : w.phase with
+    | idle => exact absurd hq hp
+    | backoff => exact Or.inl rfl
+    | dialGate => exact Or.inr (Or.inl rfl)
+    | connackGate k => exact Or.inr (Or.inr (Or.inl ⟨k, rfl⟩))
+    | exited => exact Or.inr (Or.inr (Or.inr rfl))
+    | up k =>
+      have := (connect_returns_once s).2.1 k hq
+      rw [show (exec s).connectReturned = none from hcr] at this; cases this
+  obtain ⟨a1, a2, _, _, a5, a6, _, _, _⟩ := cancel_exits w hcr hcc hph
+  obtain ⟨b1, b2, b3⟩ := exited_foldl evs' _ a1
+  have b4 := (ctxMono_foldl evs' (step w .cancelCtx)).1 a2
+  refine ⟨a1, a2, a5, a6, b1, b2.trans a5, b3.trans a6, b4, ?_⟩
+  have hx := (connect_returns_once { s with evs := s.evs ++ .cancelCtx :: evs' }).1
+  rw [exec_append] at hx
+  exact (hx b4).2.1
+
+/-- cancellation before Connect is even called: nothing happens until `.start`, which then makes the one
+    dial attempt of the Go loop (the context-aware dialer fails at once) and returns the error -/
+theorem cancel_before_connect (w : World) (hcr : w.connectReturned = none) (hcc : w.ctxCancelled = false)
+    (hp : w.phase = .idle) : let w1 := step w .cancelCtx
+    w1.phase = .idle ∧ w1.dials = w.dials ∧ w1.ctxCancelled = true ∧ w1.connectErr = w.connectErr ∧
+    (step w1 .start).phase = .exited ∧ (step w1 .start).dials = w.dials + 1 ∧
+    (step w1 .start).connectErr = true ∧ (step w1 .start).conns = w.conns := by
+  have h : ¬ (w.ctxCancelled = true ∨ w.connectReturned.isSome = true) := by rw [hcc, hcr]; simp
+  have hst : step w .cancelCtx = { w with ctxCancelled := true } := by simp only [step, if_neg h, hp]
+  simp only [hst]
+  simp [step, hp]
+
 /-! ### non-vacuity -/
 
 /-- two dial failures, a refused CONNACK, an accepted one, a QoS 1 publish, a peer close, another dial
     failure, an accepted CONNACK, a publish whose PUBACK is lost with the connection, a reconnect
-    that retransmits it -/
+    that retransmits it; every redial after its `.waitElapsed` -/
 def demo : Script :=
   { faults := [.ok, .lostAck, .ok],
-    evs := [.start, .dialFail, .dialFail, .dialOk 0, .connackRefused, .dialOk 5, .connackOk false [],
-            .app (.pub 1 1), .peerClose, .dialFail, .dialOk 7, .connackOk true [], .app (.pub 2 1),
-            .dialOk 9, .connackOk true []] }
+    evs := [.start, .dialFail, .waitElapsed, .dialFail, .waitElapsed, .dialOk 0, .connackRefused, .waitElapsed,
+            .dialOk 5, .connackOk false [], .app (.pub 1 1), .peerClose, .waitElapsed, .dialFail, .waitElapsed,
+            .dialOk 7, .connackOk true [], .app (.pub 2 1), .waitElapsed, .dialOk 9, .connackOk true []] }
 
 example : (exec demo).waits = [0, 1, 2, 0, 1, 0] := by decide
 example : (exec demo).waits = consecutive 0 [.failed, .failed, .failed, .established, .failed, .established] := by
   decide
 example : (exec demo).waits.map (waitAfter 4 10) = [4, 8, 10, 4, 8, 4] := by decide
 example : (exec demo).dials = 7 ∧ (exec demo).waitExp = 0 ∧ (exec demo).phase = .up 3 := by decide
+example : redials (init demo) demo.evs = 6 ∧ starts (init demo) demo.evs = 1 := by decide
 example : (exec demo).conns.map (·.alive) = [false, false, false, true] := by decide
 example : (exec demo).conns.map (·.pkts.head?) =
     [some (.connect, .sent .ok), some (.connect, .sent .ok), some (.connect, .sent .ok), some (.connect, .sent .ok)] := by
@@ -290,35 +698,93 @@ example : (exec demo).conns.map (·.pkts.head?) =
 example : (exec demo).conns.map (·.pkts.length) = [1, 2, 2, 2] := by decide
 example : (exec demo).conns.map (fun c => (c.pkts.filter (fun pw => pw.1 == .connect)).length) = [1, 1, 1, 1] := by
   decide
--- `dial_only_when_all_closed` is not vacuous: after the peer close a dial does create a connection
-example : let w := exec { demo with evs := demo.evs.take 9 }
+-- `dial_only_when_all_closed` is not vacuous: after the peer close and the wait a dial does create a connection
+example : let w := exec { demo with evs := demo.evs.take 13 }
     w.phase = .dialGate ∧ (step w (.dialOk 3)).conns.length = w.conns.length + 1 := by decide
+-- without `.waitElapsed` the loop does NOT dial: the failure leaves it in `.backoff`, where `.dialOk` / `.dialFail` do nothing
+example : let w := exec { demo with evs := demo.evs.take 12 }
+    w.phase = .backoff ∧ w.dials = 4 ∧ w.waits = [0, 1, 2, 0] ∧
+    (step w (.dialOk 3)).conns.length = w.conns.length ∧ (step w .dialFail).waits = w.waits ∧
+    (step w .waitElapsed).dials = 5 ∧ (step w .waitElapsed).phase = .dialGate := by decide
+-- the same script with the timer firings removed never gets past the first failure
+example : (exec { demo with evs := demo.evs.filter (fun e => !isWaitElapsed e) }).dials = 1 ∧
+    (exec { demo with evs := demo.evs.filter (fun e => !isWaitElapsed e) }).phase = .backoff ∧
+    (exec { demo with evs := demo.evs.filter (fun e => !isWaitElapsed e) }).conns.length = 0 := by decide
 
 /-- Disconnect while connected: the loop exits, DISCONNECT is the last packet, later events change nothing -/
 def demoDisc : Script :=
   { evs := [.start, .dialOk 0, .connackOk false [], .app (.pub 1 1), .disconnect,
-            .peerClose, .dialOk 1, .dialFail, .connackRefused, .start, .app (.pub 2 1)] }
+            .peerClose, .waitElapsed, .dialOk 1, .dialFail, .connackRefused, .start, .cancelCtx, .app (.pub 2 1)] }
 
 example : (exec demoDisc).phase = .exited ∧ (exec demoDisc).stopped = true ∧ (exec demoDisc).dials = 1 ∧
-    (exec demoDisc).conns.length = 1 ∧ (exec demoDisc).rejected = 1 := by decide
+    (exec demoDisc).conns.length = 1 ∧ (exec demoDisc).rejected = 1 ∧ (exec demoDisc).connectErr = false := by decide
 example : (exec demoDisc).conns.map (·.pkts.getLast?) = [some (.disconnect, .sent .ok)] := by decide
+
+/-- Disconnect while waiting to redial (`.backoff`): the select on the timer returns, the loop exits;
+    the timer firing and dial results afterwards do nothing -/
+def demoDiscBackoff : Script :=
+  { evs := [.start, .dialFail, .waitElapsed, .dialOk 0, .connackOk false [], .peerClose, .disconnect,
+            .waitElapsed, .dialOk 1, .connackOk false [], .dialFail, .waitElapsed] }
+
+example : let w := exec { demoDiscBackoff with evs := demoDiscBackoff.evs.take 6 }
+    w.phase = .backoff ∧ w.stopped = false ∧ w.dials = 2 ∧ w.waits = [0, 0] ∧ w.conns.map (·.alive) = [false] := by
+  decide
+example : let w := exec { demoDiscBackoff with evs := demoDiscBackoff.evs.take 7 }
+    w.phase = .exited ∧ w.stopped = true ∧ w.dials = 2 := by decide
+example : (exec demoDiscBackoff).phase = .exited ∧ (exec demoDiscBackoff).dials = 2 ∧
+    (exec demoDiscBackoff).conns.length = 1 ∧ (exec demoDiscBackoff).waits = [0, 0] := by decide
+
+/-- Disconnect while DialContext is in flight (`.dialGate`), which then succeeds: the transport is
+    taken, CONNECT goes out, the accepted CONNACK ends the loop, the queued Disconnect task closes the
+    connection — one more connection, no further dial -/
+def demoDiscDial : Script :=
+  { evs := [.start, .dialFail, .waitElapsed, .disconnect, .dialOk 0, .connackOk false [],
+            .waitElapsed, .dialOk 1, .dialFail] }
+
+example : let w := exec { demoDiscDial with evs := demoDiscDial.evs.take 4 }
+    w.stopped = true ∧ w.phase = .dialGate ∧ w.dials = 2 ∧ w.conns.length = 0 := by decide
+example : let w := exec { demoDiscDial with evs := demoDiscDial.evs.take 5 }
+    w.stopped = true ∧ w.phase = .connackGate 0 ∧ w.dials = 2 ∧
+    w.conns.map (·.pkts) = [[(.connect, .sent .ok)]] := by decide
+example : (exec demoDiscDial).phase = .exited ∧ (exec demoDiscDial).dials = 2 ∧
+    (exec demoDiscDial).conns.map (·.alive) = [false] ∧ (exec demoDiscDial).waits = [0] ∧
+    (exec demoDiscDial).conns.map (·.pkts.getLast?) = [some (.disconnect, .sent .ok)] := by decide
+
+/-- … the dial in flight fails: the loop exits on the spot, no wait is logged -/
+def demoDiscDialFail : Script :=
+  { evs := [.start, .disconnect, .dialFail, .waitElapsed, .dialOk 0] }
+
+example : (exec demoDiscDialFail).phase = .exited ∧ (exec demoDiscDialFail).dials = 1 ∧
+    (exec demoDiscDialFail).conns.length = 0 ∧ (exec demoDiscDialFail).waits = [] := by decide
+
+/-- … the dial succeeds but the CONNACK is refused: exits, no wait, no redial -/
+def demoDiscDialRefused : Script :=
+  { evs := [.start, .disconnect, .dialOk 0, .connackRefused, .waitElapsed, .dialOk 1] }
+
+example : (exec demoDiscDialRefused).phase = .exited ∧ (exec demoDiscDialRefused).dials = 1 ∧
+    (exec demoDiscDialRefused).conns.map (·.alive) = [false] ∧ (exec demoDiscDialRefused).waits = [] := by decide
+/-- so the former statement of `disconnect_then_no_dial` (number of connections unchanged) is false in `.dialGate` -/
+example : ¬ (∀ (w : World) (evs' : List Ev), w.stopped = false → w.phase ≠ .idle →
+    (evs'.foldl step (step w .disconnect)).conns.length = w.conns.length) := by
+  intro h
+  have := h (exec { evs := [.start] }) [.dialOk 0] (by decide) (by decide)
+  revert this
+  decide
 
 /-- Disconnect while the CONNACK is pending, which then arrives and is accepted: the connection is
     established, the queued Disconnect task closes it at once, the loop exits — no further dial -/
-def demoDiscGate : Script := { evs := [.start, .dialOk 0, .disconnect, .connackOk false [], .dialOk 1, .dialFail] }
+def demoDiscGate : Script :=
+  { evs := [.start, .dialOk 0, .disconnect, .connackOk false [], .waitElapsed, .dialOk 1, .dialFail] }
 
 example : let w := exec { demoDiscGate with evs := demoDiscGate.evs.take 3 }
     w.stopped = true ∧ w.phase = .connackGate 0 ∧ w.dials = 1 := by decide
 example : (exec demoDiscGate).phase = .exited ∧ (exec demoDiscGate).dials = 1 ∧
     (exec demoDiscGate).conns.map (·.alive) = [false] := by decide
 
-/-! ### Disconnect while the CONNACK is pending, which is then refused (the former counterexamples)
+/-! ### Disconnect while the CONNACK is pending, which is then refused / never comes -/
 
-  Before the model was refined (`connectFailed`, `.dialFail`, `.connackOk` now observe `stopped`, as the
-  `select` on `c.disconnected` in reconnclient.go does) these scripts ended with two dials / two
-  connections, resp. with a stopped client connected for good. Now the loop exits. -/
-
-def demoDiscGateRefused : Script := { evs := [.start, .dialOk 0, .disconnect, .connackRefused, .dialOk 0] }
+def demoDiscGateRefused : Script :=
+  { evs := [.start, .dialOk 0, .disconnect, .connackRefused, .waitElapsed, .dialOk 0] }
 
 example : let w := exec { demoDiscGateRefused with evs := demoDiscGateRefused.evs.take 3 }
     w.stopped = true ∧ w.phase = .connackGate 0 ∧ w.dials = 1 ∧ w.conns.length = 1 := by decide
@@ -327,22 +793,78 @@ example : (exec demoDiscGateRefused).stopped = true ∧ (exec demoDiscGateRefuse
     (exec demoDiscGateRefused).phase = .exited := by decide
 
 def demoDiscGateLong : Script :=
-  { evs := [.start, .dialOk 0, .disconnect, .connackNever, .dialFail, .dialFail, .dialOk 0, .connackOk false []] }
+  { evs := [.start, .dialOk 0, .disconnect, .connackNever, .waitElapsed, .dialFail, .waitElapsed, .dialFail,
+            .dialOk 0, .connackOk false []] }
 
 example : (exec demoDiscGateLong).stopped = true ∧ (exec demoDiscGateLong).phase = .exited ∧
     (exec demoDiscGateLong).dials = 1 ∧ (exec demoDiscGateLong).conns.map (·.alive) = [false] ∧
     (exec demoDiscGateLong).taskQ = [] := by decide
 
+/-! ### cancellation of Connect's context -/
+
+/-- cancelled while waiting to redial, before any success: the loop exits, Connect returns the error;
+    the timer and dial results afterwards do nothing -/
+def demoCancelBackoff : Script :=
+  { evs := [.start, .dialFail, .cancelCtx, .waitElapsed, .dialOk 0, .connackOk false []] }
+
+example : let w := exec { demoCancelBackoff with evs := demoCancelBackoff.evs.take 2 }
+    w.phase = .backoff ∧ w.connectReturned = none ∧ w.ctxCancelled = false := by decide
+example : (exec demoCancelBackoff).phase = .exited ∧ (exec demoCancelBackoff).connectErr = true ∧
+    (exec demoCancelBackoff).dials = 1 ∧ (exec demoCancelBackoff).conns.length = 0 ∧
+    (exec demoCancelBackoff).connectReturned = none ∧ (exec demoCancelBackoff).stopped = false := by decide
+
+/-- cancelled inside DialContext -/
+def demoCancelDial : Script := { evs := [.start, .cancelCtx, .dialOk 0, .dialFail, .waitElapsed] }
+
+example : (exec demoCancelDial).phase = .exited ∧ (exec demoCancelDial).connectErr = true ∧
+    (exec demoCancelDial).dials = 1 ∧ (exec demoCancelDial).conns.length = 0 ∧ (exec demoCancelDial).waits = [] := by
+  decide
+
+/-- cancelled while the CONNACK is awaited: the connection is closed, the loop exits; a late CONNACK does nothing -/
+def demoCancelGate : Script :=
+  { evs := [.start, .dialOk 0, .app (.pub 1 1), .cancelCtx, .connackOk false [], .waitElapsed, .dialOk 1] }
+
+example : (exec demoCancelGate).phase = .exited ∧ (exec demoCancelGate).connectErr = true ∧
+    (exec demoCancelGate).dials = 1 ∧ (exec demoCancelGate).conns.map (·.alive) = [false] ∧
+    (exec demoCancelGate).conns.map (·.connected) = [false] ∧ (exec demoCancelGate).connectReturned = none := by
+  decide
+
+/-- cancelled after the first success: no effect at all — the loop goes on reconnecting -/
+def demoCancelLate : Script :=
+  { evs := [.start, .dialOk 0, .connackOk false [], .cancelCtx, .peerClose, .waitElapsed, .dialOk 1,
+            .connackOk true []] }
+
+example : (exec demoCancelLate).phase = .up 1 ∧ (exec demoCancelLate).connectErr = false ∧
+    (exec demoCancelLate).ctxCancelled = false ∧ (exec demoCancelLate).dials = 2 ∧
+    (exec demoCancelLate).connectReturned = some false ∧
+    (exec demoCancelLate).conns.map (·.alive) = [false, true] := by decide
+example : exec demoCancelLate =
+    exec { demoCancelLate with evs := demoCancelLate.evs.filter (fun e => match e with | .cancelCtx => false | _ => true) } := by
+  rfl
+
+/-- cancelled before Connect is called: one dial attempt, the error, nothing else -/
+def demoCancelIdle : Script := { evs := [.cancelCtx, .start, .dialOk 0, .waitElapsed, .dialFail] }
+
+example : (exec demoCancelIdle).phase = .exited ∧ (exec demoCancelIdle).connectErr = true ∧
+    (exec demoCancelIdle).dials = 1 ∧ (exec demoCancelIdle).conns.length = 0 := by decide
+
+/-- Disconnect first (loop exited), then the context expires while Connect was still waiting: only the error is recorded -/
+def demoDiscThenCancel : Script := { evs := [.start, .dialFail, .disconnect, .cancelCtx, .waitElapsed] }
+
+example : (exec demoDiscThenCancel).phase = .exited ∧ (exec demoDiscThenCancel).connectErr = true ∧
+    (exec demoDiscThenCancel).stopped = true ∧ (exec demoDiscThenCancel).dials = 1 := by decide
+
 /-! ### Disconnect before Connect (`.idle`, out of scope): one dial, then the loop exits -/
 
-def demoIdleFail : Script := { evs := [.disconnect, .start, .dialFail, .dialFail, .dialOk 0] }
+def demoIdleFail : Script := { evs := [.disconnect, .start, .dialFail, .waitElapsed, .dialFail, .dialOk 0] }
 
 example : let w := exec { demoIdleFail with evs := demoIdleFail.evs.take 1 }
     w.stopped = true ∧ w.phase = .idle ∧ w.dials = 0 := by decide
 example : (exec demoIdleFail).stopped = true ∧ (exec demoIdleFail).dials = 1 ∧
     (exec demoIdleFail).conns.length = 0 ∧ (exec demoIdleFail).phase = .exited := by decide
 
-def demoIdleOk : Script := { evs := [.disconnect, .start, .dialOk 0, .connackOk false [], .dialOk 1, .dialFail] }
+def demoIdleOk : Script :=
+  { evs := [.disconnect, .start, .dialOk 0, .connackOk false [], .waitElapsed, .dialOk 1, .dialFail] }
 
 example : (exec demoIdleOk).stopped = true ∧ (exec demoIdleOk).dials = 1 ∧
     (exec demoIdleOk).conns.map (·.alive) = [false] ∧ (exec demoIdleOk).phase = .exited := by decide
